@@ -7,7 +7,8 @@
       event, termination;
     * data violating a protocol invariant is never handed to the caller: a message sequence
       number or UID 0, an open-ended ("*") set in a result, a tree nested deeper than the
-      decoder's limit;
+      decoder's limit, a size / count / limit below zero (a number beyond 2^63-1 that was
+      accepted and wrapped);
     * streams that carry such a violation in a place where the client would have to hand it on
       (0 / an overflowing number / "*" as a SEARCH or SORT result, nesting beyond the limit,
       a malformed or truncated literal) are answered with an error, not with success;
@@ -108,6 +109,7 @@ structure ImplObs where
   dyn : Bool            -- an open-ended set was handed to the caller
   depth : Nat           -- deepest tree handed to the caller
   card : Nat            -- largest cardinality of a static set handed to the caller
+  neg : Bool            -- a 64-bit size / count / limit below zero was handed to the caller
 
 /-- memory an enumerating accessor needs for a set of that cardinality (4 bytes per number)
     against a generous linear budget -/
@@ -119,9 +121,11 @@ def judge (kind : String) (cmdKind : String) (tag stream : Bytes) (o : ImplObs) 
   else if o.acc != "ok" then some s!"accessor-panic@{o.acc}"
   else if o.zero then some "zero-delivered"
   else if o.dyn then some "dynamic-set-delivered"
+  -- a number beyond 2^63-1 is malformed; accepted and wrapped it shows up as a negative size
+  else if o.neg then some "negative-number-delivered"
   else if o.depth > cap + slack then some s!"overdeep-delivered@{o.depth}"
   else if kind == "nest" && maxParenDepth stream > cap + slack && o.cmd == "ok" then some "overdeep-accepted"
-  else if kind == "lit" && hasMalformedLiteral stream && o.cmd == "ok" then some "malformed-literal-accepted"
+  else if (kind == "lit" || kind == "corpus") && hasMalformedLiteral stream && o.cmd == "ok" then some "malformed-literal-accepted"
   else if plainStream stream && cmdKind == "search" && badResultLine "SEARCH" tag (lines stream) && o.cmd == "ok" then
     some "malformed-number-accepted"
   else if plainStream stream && cmdKind == "sort" && badResultLine "SORT" tag (lines stream) && o.cmd == "ok" then
